@@ -47,6 +47,21 @@ def deepcopyN : Nat → Heap α → Nat → Heap α × Nat
     let g := goToks (deepcopyN f) (copy h o).1 (h.lists (h.objs o).lst)
     ({ g.1 with lists := upd g.1.lists h.next g.2 }, (copy h o).2)
 
+/-- the loop of results.py:593-595 exactly as written: `ret._toklist[i] = obj.deepcopy()` is stored into the copy's
+    list cell `L` right after each recursive call -/
+def loopToks (rec : Heap α → Nat → Heap α × Nat) (L : Nat) : Heap α → Nat → List (HVal α) → Heap α
+  | h, _, [] => h
+  | h, i, .atom _ :: ts => loopToks rec L h (i + 1) ts
+  | h, i, .ref n :: ts =>
+    loopToks rec L { (rec h n).1 with lists := upd (rec h n).1.lists L (((rec h n).1.lists L).set i (.ref (rec h n).2)) }
+      (i + 1) ts
+
+/-- `ParseResults.deepcopy()` statement by statement (store after every recursive call).  Proved equal to
+    `deepcopyN` on every well-formed token tree: `deepcopyLoop_eq` in PPProofs/Props/C11Deep.lean. -/
+def deepcopyLoop : Nat → Heap α → Nat → Heap α × Nat
+  | 0, h, o => copy h o
+  | f + 1, h, o => (loopToks (deepcopyLoop f) h.next (copy h o).1 0 (h.lists (h.objs o).lst), (copy h o).2)
+
 /-- serialisation of `as_list()` (results.py:541-544): brackets and scalars -/
 inductive Tk (α : Type) where
   | lb
